@@ -9,7 +9,7 @@ def run(rep, tier, seed):
     expl = ('table level (P): DefaultNamespace/EdifNamespace.no_conflict/update/remove/lookup against the abstract view '
                        'tab(N, type, key) -- refuses iff another element owns the key (identifiers lower-cased), update/remove move exactly the '
                        'entry of the element, every other entry of every table is unchanged; hook level (P, policy methods used through their '
-                       'contracts): NamespaceManager.add / dictionary_set refuse (ValueError) exactly for a sibling that owns the name or '
+                       'contracts): NamespaceManager.add / dictionary_set and the ten hooks the dispatcher calls (definition_add_port ... netlist_remove_library) -- add / dictionary_set refuse (ValueError) exactly for a sibling that owns the name or '
                        'identifier or for an illegal EDIF identifier and then leave every table unchanged, otherwise record the element; '
                        'remove / dictionary_delete / dictionary_pop never refuse and drop exactly the element\'s entry; lookup returns the entry of '
                        'the parent\'s table; lemmas over these contracts (P): each hook carries the invariant "every table entry is a child carrying that '
